@@ -16,18 +16,78 @@ struct Q {
     k: usize,
 }
 
-fn events<F: Fn(u8, u8) -> u32>(log: &mut Log, mut u: Ukkonen<F>, qs: &[Q]) {
-    let mut nontrivial = false;
-    for q in qs {
-        let r = log.call("find_all_end", json!({"p": bytes(&q.p), "t": bytes(&q.t), "k": q.k}), || {
-            let v: Vec<(usize, usize)> = u.find_all_end(&q.p, q.t.iter(), q.k).collect();
-            json!({"v": Value::Array(v.iter().map(|&(e, d)| json!([num(e), num(d)])).collect())})
-        });
-        if let Some(v) = r.get("v").and_then(|v| v.as_array()) {
-            if !v.is_empty() && v.len() < q.t.len() {
-                nontrivial = true;
+fn one_query<F: Fn(u8, u8) -> u32>(log: &mut Log, u: &mut Ukkonen<F>, q: &Q, on: &str, n: u64) -> bool {
+    let via = n;
+    let r = log.call("find_all_end", json!({"p": bytes(&q.p), "t": bytes(&q.t), "k": q.k, "on": on, "via": VIA[(via % 4) as usize]}), || {
+        let v: Vec<(usize, usize)> = u.find_all_end(&q.p, text_iter(&q.t, via), q.k).collect();
+        json!({"v": Value::Array(v.iter().map(|&(e, d)| json!([num(e), num(d)])).collect())})
+    });
+    if n % 7 == 3 {
+        // the result iterator consumed through an adaptor / asked for its size hint
+        let how = HOWS[((n / 7) % 6) as usize];
+        let cnt = 1 + ((n / 42) % 3) as usize;
+        log.call("find_all_end_via", json!({"p": bytes(&q.p), "t": bytes(&q.t), "k": q.k, "how": how, "n": cnt, "on": on}), || {
+            let mut it = u.find_all_end(&q.p, text_iter(&q.t, via + 1), q.k);
+            let item = |(e, d): (usize, usize)| json!([num(e), num(d)]);
+            match how {
+                "count" => json!({"v": [it.count()]}),
+                "last" => json!({"v": it.last().map(item).into_iter().collect::<Vec<Value>>()}),
+                "nth" => json!({"v": it.nth(cnt).map(item).into_iter().collect::<Vec<Value>>()}),
+                "skip" => json!({"v": it.skip(cnt).map(item).collect::<Vec<Value>>()}),
+                "step_by" => json!({"v": it.step_by(cnt).map(item).collect::<Vec<Value>>()}),
+                _ => {
+                    for _ in 0..cnt {
+                        it.next();
+                    }
+                    let (lo, hi) = it.size_hint();
+                    json!({"v": [num(lo), hi.map(num).unwrap_or(-1)]})
+                }
             }
+        });
+        log.oblige(&format!("iterator_consumed_via_{}", how));
+    }
+    match r.get("v").and_then(|v| v.as_array()) {
+        Some(v) => !v.is_empty() && v.len() < q.t.len(),
+        None => false,
+    }
+}
+
+/// `values`: the Ukkonen object is formatted (Debug) and cloned after half of the queries; the
+/// rest is answered in turn by the clone and by the original, then the first half is asked
+/// again in reverse order (same answers in another order).
+fn events<F: Fn(u8, u8) -> u32 + Clone>(log: &mut Log, mut u: Ukkonen<F>, qs: &[Q], values: bool) {
+    let mut nontrivial = false;
+    let mut n: u64 = 0;
+    let half = qs.len() / 2;
+    let mut copy: Option<Ukkonen<F>> = None;
+    for (i, q) in qs.iter().enumerate() {
+        if values && i == half {
+            log.call("debug", json!({}), || {
+                // Debug needs a cost function that is Debug itself: a function pointer
+                let mut d = Ukkonen::with_capacity(4, unit_cost as fn(u8, u8) -> u32);
+                let a = format!("{:?}", d).len();
+                let b = format!("{:?}", d.find_all_end(&q.p, q.t.iter(), q.k)).len();
+                json!({"len": a + b})
+            });
+            log.call("clone", json!({}), || {
+                copy = Some(u.clone());
+                json!({})
+            });
+            log.oblige("object_cloned_mid_history_both_continue");
         }
+        n += 1;
+        let use_copy = values && i >= half && i % 2 == 0;
+        nontrivial |= match (use_copy, copy.as_mut()) {
+            (true, Some(c)) => one_query(log, c, q, "clone", n),
+            _ => one_query(log, &mut u, q, "original", n),
+        };
+    }
+    if values {
+        for q in qs[..half].iter().rev() {
+            n += 1;
+            one_query(log, &mut u, q, "original", n);
+        }
+        log.oblige("same_searches_two_orders");
     }
     if nontrivial {
         log.oblige("nontrivial");
@@ -35,6 +95,7 @@ fn events<F: Fn(u8, u8) -> u32>(log: &mut Log, mut u: Ukkonen<F>, qs: &[Q]) {
 }
 
 fn run_one(log: &mut Log, tag: &str, cap: usize, cost: &[Vec<u32>], qs: &[Q]) {
+    let values = tag == "ct"; // the cost-table class treats the object as a value
     let cj = Value::Array(cost.iter().map(|r| Value::Array(r.iter().map(|&x| json!(x)).collect())).collect());
     if !log.begin(tag, json!({"cap": cap, "cost": cj})) {
         return;
@@ -43,10 +104,10 @@ fn run_one(log: &mut Log, tag: &str, cap: usize, cost: &[Vec<u32>], qs: &[Q]) {
         log.oblige("cost_nonzero_diagonal"); // "a symbol does not even match itself"
     }
     if cost.is_empty() {
-        events(log, Ukkonen::with_capacity(cap, unit_cost), qs);
+        events(log, Ukkonen::with_capacity(cap, unit_cost), qs, values);
     } else {
         let table: Vec<Vec<u32>> = cost.to_vec();
-        events(log, Ukkonen::with_capacity(cap, move |a: u8, b: u8| table[a as usize][b as usize]), qs);
+        events(log, Ukkonen::with_capacity(cap, move |a: u8, b: u8| table[a as usize][b as usize]), qs, values);
     }
 }
 
